@@ -19,6 +19,7 @@ from .analyze_tags import InnerTagMap
 from .analyze_tags import TagAnalysis
 from .builtin import DictLoader
 from .exceptions import BlockNestingError
+from .exceptions import ContextDepthError
 from .exceptions import LiquidError
 from .exceptions import LiquidSyntaxError
 from .exceptions import TemplateInheritanceError
@@ -283,9 +284,14 @@ class Environment:
         except (LiquidSyntaxError, TemplateInheritanceError, BlockNestingError) as err:
             err.template_name = path
             raise err
-        except RecursionError:
-            # Probably a partial template loaded from deep inside a recursive render.
-            raise
+        except RecursionError as err:
+            # Either the source is nested too deeply for the parser, or this is a
+            # partial template loaded from deep inside a recursive render.
+            raise ContextDepthError(
+                "maximum recursion depth reached, possible recursive include or "
+                "deeply nested expression",
+                token=None,
+            ) from err
         except Exception as err:  # noqa: BLE001
             raise LiquidError("unexpected liquid parsing error", token=None) from err
         return self.template_class(
